@@ -92,6 +92,14 @@ class MyStop(StopEvent):
     value: Optional[Any] = None
 
 
+class Verdict(StopEvent):
+    """a result event with a truth value of its own (``if verdict: ...``): a falsy result is a result like any other"""
+    approved: bool = False
+
+    def __bool__(self) -> bool:
+        return bool(self.approved)
+
+
 from pydantic import BaseModel, Field  # noqa: E402
 
 
